@@ -16,16 +16,16 @@
 EXTENDS HpkeCtx
 
 CONSTANTS
-    SetupSMenu,        \* set of [c, p]: sender setups the environment may perform
-    SetupRMenu,        \* set of [c, p]: receiver setups
+    SetupSMenu(_),     \* ctx -> set of [c, p]: sender setups the environment may perform now
+    SetupRMenu(_),     \* ctx -> set of [c, p]: receiver setups
     RawMenu,           \* set of [c, role, suite, key, bn, exp]: hook-built contexts
     SeqMenu,           \* set of [seq, ovf]: values the counter hook may install
     PtMenu(_), AadMenu(_), \* plaintexts / associated data for the n-th Seal of a context (n from 0)
     FormMenu,          \* subset of {"alloc", "detached"}
     DeliveryMenu,      \* set of delivery descriptors (see Deliver)
     ExportMenu,        \* set of <<exporter_context, L>>
-    ShotSMenu,         \* set of [p, pt, aad]: single-shot seals
-    ShotRMenu,         \* set of [p, d]: single-shot opens (d a delivery descriptor)
+    ShotSMenu(_),      \* ctx -> set of [p, pt, aad]: single-shot seals
+    ShotRMenu(_),      \* shots -> set of [p, d]: single-shot opens (d a delivery descriptor)
     MaxSeals, MaxOpens, MaxExports, MaxSetSeq, MaxShots,
     OvfFirstInOpen,    \* TRUE: allocating open checks the latch before the length (see D5)
     RecordHist         \* TRUE: keep the whole behaviour in `hist` (generation runs only)
@@ -61,6 +61,13 @@ Record(r) ==
 (* Setup (section 5.1).  p = [suite, mode, pkR, info, psk, pskId, skS, pkS, rng] *)
 (* resp. [suite, mode, skR, enc, info, psk, pskId, pkS].                   *)
 (***************************************************************************)
+\* the mode-dependent arguments of a call (the API has no slot for the others)
+EmptyF == [x \in {} |-> <<>>]
+ModeBytesS(p) == (IF p.mode \in PskModes THEN [psk |-> p.psk, psk_id |-> p.pskId] ELSE EmptyF)
+                 @@ (IF p.mode \in AuthModes THEN [sk_s |-> p.skS, pk_s |-> p.pkS] ELSE EmptyF)
+ModeBytesR(p) == (IF p.mode \in PskModes THEN [psk |-> p.psk, psk_id |-> p.pskId] ELSE EmptyF)
+                 @@ (IF p.mode \in AuthModes THEN [pk_s |-> p.pkS] ELSE EmptyF)
+
 SetupSStep(p) ==
     LET kem == p.suite[1]
         idS == IF p.mode \in AuthModes THEN Id(p.skS, p.pkS) ELSE NoId
@@ -85,13 +92,12 @@ SetupS(c, p) ==
     /\ c \notin Live
     /\ LET r == SetupSStep(p)
        IN  /\ IF r.kind = "ok"
-              THEN /\ ctx'  = Put(ctx, c, NewCtx("S", p.suite, r.km))
+              THEN /\ ctx'  = Put(ctx, c, NewCtx("S", p.suite, r.km, p))
                    /\ sent' = Put(sent, c, <<>>)
               ELSE UNCHANGED <<ctx, sent>>
            /\ Record([op |-> "setup_s", c |-> c, form |-> "",
                       plain |-> [suite |-> p.suite, mode |-> p.mode],
-                      bytes |-> [pk_r |-> p.pkR, info |-> p.info, psk |-> p.psk,
-                                 psk_id |-> p.pskId, sk_s |-> p.skS, pk_s |-> p.pkS, rng |-> p.rng],
+                      bytes |-> [pk_r |-> p.pkR, info |-> p.info, rng |-> p.rng] @@ ModeBytesS(p),
                       kind |-> r.kind, err |-> r.err,
                       out |-> [enc |-> r.enc], outn |-> [drawn |-> Nsk(p.suite[1])],
                       pre |-> NoState,
@@ -103,13 +109,12 @@ SetupR(c, p) ==
     /\ c \notin Live
     /\ LET r == SetupRStep(p)
        IN  /\ IF r.kind = "ok"
-              THEN /\ ctx'  = Put(ctx, c, NewCtx("R", p.suite, r.km))
+              THEN /\ ctx'  = Put(ctx, c, NewCtx("R", p.suite, r.km, p))
                    /\ rcvd' = Put(rcvd, c, <<>>)
               ELSE UNCHANGED <<ctx, rcvd>>
            /\ Record([op |-> "setup_r", c |-> c, form |-> "",
                       plain |-> [suite |-> p.suite, mode |-> p.mode],
-                      bytes |-> [sk_r |-> p.skR, enc |-> p.enc, info |-> p.info, psk |-> p.psk,
-                                 psk_id |-> p.pskId, pk_s |-> p.pkS],
+                      bytes |-> [sk_r |-> p.skR, enc |-> p.enc, info |-> p.info] @@ ModeBytesR(p),
                       kind |-> r.kind, err |-> r.err, out |-> [x \in {} |-> <<>>],
                       outn |-> [x \in {} |-> 0],
                       pre |-> NoState,
@@ -121,7 +126,7 @@ SetupR(c, p) ==
 (* Verification hooks (cfg hpke_verif), named: a context built directly    *)
 (* from key material, and a jump of the counter.                           *)
 (***************************************************************************)
-RawCtxOf(m) == NewCtx(m.role, m.suite, [key |-> m.key, bn |-> m.bn, exp |-> m.exp])
+RawCtxOf(m) == NewCtx(m.role, m.suite, [key |-> m.key, bn |-> m.bn, exp |-> m.exp], [raw |-> TRUE])
 RawCtxRec(m) ==
     [op |-> "raw_ctx", c |-> m.c, form |-> "",
      plain |-> [suite |-> m.suite, role |-> m.role],
@@ -284,17 +289,17 @@ ShotSealStep(p, pt, aad, form) ==
     LET s == SetupSStep(p)
     IN  IF s.kind # "ok"
         THEN [kind |-> s.kind, err |-> s.err, enc |-> <<>>, ct |-> <<>>, tag |-> <<>>, d |-> <<>>]
-        ELSE LET st == NewCtx("S", p.suite, s.km)
+        ELSE LET st == NewCtx("S", p.suite, s.km, p)
                  r  == IF form = "alloc" THEN SealAllocStep(st, pt, aad) ELSE SealStep(st, pt, aad)
                  d  == SealStep(st, pt, aad)
              IN  [kind |-> r.kind, err |-> r.err, enc |-> s.enc, ct |-> r.ct, tag |-> r.tag,
                   d |-> [seq |-> Seq0, pt |-> pt, aad |-> aad, ct |-> d.ct, tag |-> d.tag, ep |-> 0,
-                         key |-> st.key, nonce |-> NonceOf(st)]]
+                         key |-> st.key, nonce |-> NonceOf(st), enc |-> s.enc, p |-> p]]
 
 ShotOpenStep(p, dl, form) ==
     LET s == SetupRStep(p)
     IN  IF s.kind # "ok" THEN [kind |-> s.kind, err |-> s.err, pt |-> <<>>]
-        ELSE LET r == OpenResult(NewCtx("R", p.suite, s.km), dl, form)
+        ELSE LET r == OpenResult(NewCtx("R", p.suite, s.km, p), dl, form)
              IN  [kind |-> r.kind, err |-> r.err, pt |-> r.pt]
 
 SingleShotSeal(m, form) ==
@@ -305,9 +310,8 @@ SingleShotSeal(m, form) ==
        IN  /\ shots' = IF r.kind = "ok" THEN Append(shots, r.d) ELSE shots
            /\ Record([op |-> "single_shot_seal", c |-> "", form |-> form,
                       plain |-> [suite |-> p.suite, mode |-> p.mode],
-                      bytes |-> [pk_r |-> p.pkR, info |-> p.info, psk |-> p.psk,
-                                 psk_id |-> p.pskId, sk_s |-> p.skS, pk_s |-> p.pkS, rng |-> p.rng,
-                                 pt |-> m.pt, aad |-> m.aad],
+                      bytes |-> [pk_r |-> p.pkR, info |-> p.info, rng |-> p.rng,
+                                 pt |-> m.pt, aad |-> m.aad] @@ ModeBytesS(p),
                       kind |-> r.kind, err |-> r.err,
                       out |-> IF form = "alloc" THEN [enc |-> r.enc, ct |-> r.ct]
                               ELSE [enc |-> r.enc, ct |-> r.ct, tag |-> r.tag],
@@ -325,8 +329,8 @@ SingleShotOpen(m, form) ==
            /\ LET r == ShotOpenStep(p, dl, form)
               IN Record([op |-> "single_shot_open", c |-> "", form |-> form,
                          plain |-> [suite |-> p.suite, mode |-> p.mode, d |-> m.d],
-                         bytes |-> [sk_r |-> p.skR, enc |-> p.enc, info |-> p.info, psk |-> p.psk,
-                                    psk_id |-> p.pskId, pk_s |-> p.pkS, aad |-> dl.aad]
+                         bytes |-> [sk_r |-> p.skR, enc |-> p.enc, info |-> p.info, aad |-> dl.aad]
+                                   @@ ModeBytesR(p)
                                    @@ (IF form = "alloc" THEN [ct |-> Cat(dl.body, dl.tag)]
                                        ELSE [ct |-> dl.body, tag |-> dl.tag]),
                          kind |-> r.kind, err |-> r.err, out |-> [pt |-> r.pt],
@@ -342,16 +346,16 @@ Init ==
     /\ hist = <<>>
 
 Next ==
-    \/ \E m \in SetupSMenu : SetupS(m.c, m.p)
-    \/ \E m \in SetupRMenu : SetupR(m.c, m.p)
+    \/ \E m \in SetupSMenu(ctx) : SetupS(m.c, m.p)
+    \/ \E m \in SetupRMenu(ctx) : SetupR(m.c, m.p)
     \/ \E m \in RawMenu : HookRawCtx(m)
     \/ \E c \in Live, v \in SeqMenu : HookSetSeq(c, v)
     \/ \E c \in Senders : \E pt \in PtMenu(Len(sent[c])), aad \in AadMenu(Len(sent[c])), f \in FormMenu :
             Seal(c, pt, aad, f)
     \/ \E c \in Receivers, d \in DeliveryMenu, f \in FormMenu : Open(c, d, f)
     \/ \E c \in Live, e \in ExportMenu : Export(c, e[1], e[2])
-    \/ \E m \in ShotSMenu, f \in FormMenu : SingleShotSeal(m, f)
-    \/ \E m \in ShotRMenu, f \in FormMenu : SingleShotOpen(m, f)
+    \/ \E m \in ShotSMenu(ctx), f \in FormMenu : SingleShotSeal(m, f)
+    \/ \E m \in ShotRMenu(shots), f \in FormMenu : SingleShotOpen(m, f)
 
 Spec == Init /\ [][Next]_vars
 
